@@ -167,6 +167,161 @@ func runC44(c *Ctx) {
 	}
 	c.Floor(r1, 4)
 
+	// A change that is marked as used (entered into a set the leftover loops consult) is dropped by those loops; the
+	// mark therefore commits the function to pairing it. From every `used[x] = …` no path may reach the next iteration
+	// or the end of the function without x having been appended somewhere or built into a reported Change.
+	const r1b = "used-mark-implies-pairing"
+	n1b := 0
+	for _, fi := range p.FuncsIn(objShort) {
+		if fi.Decl.Body == nil || p.isTestFile(fi.Decl.Pos()) || recvTypeName(fi.Obj) != rdT {
+			continue
+		}
+		var f *Flow
+		k := 0
+		ast.Inspect(fi.Decl.Body, func(n ast.Node) bool {
+			as, ok := n.(*ast.AssignStmt)
+			if !ok || len(as.Lhs) != 1 {
+				return true
+			}
+			ix, ok := unparen(as.Lhs[0]).(*ast.IndexExpr)
+			if !ok {
+				return true
+			}
+			mt, ok := info.Types[ix.X].Type.Underlying().(*types.Map)
+			if !ok || !isChangePtr(mt.Key()) {
+				return true
+			}
+			x := objOf(info, ix.Index)
+			if x == nil {
+				return true
+			}
+			if f == nil {
+				f = p.FlowOf(fi)
+			}
+			consumes := func(nd ast.Node) bool {
+				found := false
+				ast.Inspect(nd, func(m ast.Node) bool {
+					switch v := m.(type) {
+					case *ast.FuncLit:
+						return false
+					case *ast.CallExpr:
+						if nodeHasBuiltin(info, v, "append") {
+							for _, a := range v.Args[1:] {
+								if usesObj(info, a, x) {
+									found = true
+								}
+							}
+						}
+					case *ast.CompositeLit:
+						if tv := info.Types[v]; tv.Type != nil && types.Identical(tv.Type, chT.Type()) && usesObj(info, v, x) {
+							found = true
+						}
+					}
+					return !found
+				})
+				return found
+			}
+			for _, loc := range f.Locs(func(nd ast.Node) bool { return nd == ast.Node(as) }) {
+				k++
+				n1b++
+				c.Analysed(fi)
+				// the innermost loop around the mark
+				var head *cfg.Block
+				var bestSpan token.Pos = 1 << 40
+				for _, b := range f.G.Blocks {
+					if (b.Kind == cfg.KindRangeLoop || b.Kind == cfg.KindForLoop) && b.Stmt != nil && b.Stmt.Pos() <= as.Pos() && as.End() <= b.Stmt.End() {
+						if span := b.Stmt.End() - b.Stmt.Pos(); span < bestSpan {
+							bestSpan, head = span, b
+						}
+					}
+				}
+				hd := head
+				h := f.Search(SearchOpts{Starts: []Loc{After(loc)}, Barrier: consumes, Sink: func(nd ast.Node) bool { _, isRet := nd.(*ast.ReturnStmt); return isRet },
+					BlockSink: func(b *cfg.Block) bool { return hd != nil && b == hd }})
+				c.Check(h == nil, r1b, fi.Name()+":"+exprString(as.Lhs[0])+ifStr(k > 1, "#"+itoa(k)), as.Pos(), orStr(ifStr(h != nil, "`"+x.Name()+"` is marked as used and the iteration can end without pairing it into a Change or appending it anywhere: the leftover loops skip marked changes, so it vanishes from the result"),
+					"after the mark the change is always paired or appended before the iteration ends"))
+			}
+			return true
+		})
+	}
+	c.Floor(r1b, 2)
+
+	// merkletrie.DiffTree walks two trees with two iterators that can stand in different directories. Both may be
+	// advanced together only when they stand on the same path: in DiffTreeContext a nextBoth() is reachable only across
+	// the fact `from.Compare(to) == 0`, and the same-name handler is entered from the switch on that comparison only
+	// (default / 0 clause). Matching by base name lets a skipped entry a/z swallow an unrelated top-level z.
+	const r3 = "both-advance-only-on-equal-paths"
+	if mpk := p.Pkg("utils/merkletrie"); mpk == nil {
+		c.Unresolved(r3, "package utils/merkletrie", 0, "not loaded")
+	} else {
+		minfo := mpk.TypesInfo
+		isCompareCall := func(e ast.Expr) bool {
+			call, ok := unparen(e).(*ast.CallExpr)
+			if !ok || len(call.Args) != 1 {
+				return false
+			}
+			sel, ok := unparen(call.Fun).(*ast.SelectorExpr)
+			return ok && sel.Sel.Name == "Compare"
+		}
+		isZero := func(e ast.Expr) bool {
+			tv := minfo.Types[e]
+			return tv.Value != nil && tv.Value.ExactString() == "0"
+		}
+		samePath := FactGuard(func(_ *Flow, fact Fact) bool {
+			be, ok := unparen(fact.Atom).(*ast.BinaryExpr)
+			if !ok {
+				return false
+			}
+			eq := (be.Op == token.EQL && fact.Truth) || (be.Op == token.NEQ && !fact.Truth)
+			return eq && ((isCompareCall(be.X) && isZero(be.Y)) || (isCompareCall(be.Y) && isZero(be.X)))
+		})
+		if dt := c.MustFunc(r3, "utils/merkletrie.DiffTreeContext"); dt != nil {
+			c.Analysed(dt)
+			f := p.FlowOf(dt)
+			k := 0
+			for _, loc := range f.Locs(CallNode(false, callsNamed(minfo, "nextBoth"))) {
+				k++
+				h := f.UnguardedPath(samePath, loc)
+				c.Check(h == nil, r3, dt.Name()+"->nextBoth"+ifStr(k > 1, "#"+itoa(k)), loc.B.Nodes[loc.Idx].Pos(), orStr(ifStr(h != nil, "both iterators are advanced although their paths were not compared as a whole (`from.Compare(to) == 0`): nodes of different directories that share a base name are taken for the same node and one of them drops out of the diff"),
+					"both iterators advance only where their full paths are equal"))
+			}
+			if k == 0 {
+				c.Hold(r3, dt.Name(), dt.Decl.Pos(), "DiffTreeContext never advances both iterators itself")
+			}
+		}
+		// the same-name handler is entered from the comparison switch only
+		if same := p.Func("utils/merkletrie.diffNodesSameName"); same != nil {
+			k := 0
+			for _, fi := range p.FuncsIn("utils/merkletrie") {
+				if fi.Decl.Body == nil || p.isTestFile(fi.Decl.Pos()) {
+					continue
+				}
+				ast.Inspect(fi.Decl.Body, func(n ast.Node) bool {
+					sw, ok := n.(*ast.SwitchStmt)
+					if !ok {
+						// a call outside any switch is found below
+						return true
+					}
+					for _, cl := range sw.Body.List {
+						cc := cl.(*ast.CaseClause)
+						if nodeHasCall(&ast.BlockStmt{List: cc.Body}, false, func(call *ast.CallExpr) bool { return Callee(minfo, call) == same.Obj }) == nil {
+							continue
+						}
+						k++
+						okClause := sw.Tag != nil && isCompareCall(sw.Tag) && (len(cc.List) == 0 || (len(cc.List) == 1 && isZero(cc.List[0])))
+						c.Analysed(fi)
+						c.Check(okClause, r3, fi.Name()+"->diffNodesSameName", cc.Pos(), orStr(ifStr(!okClause, "the handler for two nodes of the same path is not entered from the equal-paths clause of a switch on from.Compare(to)"), "entered from the equal-paths clause of the switch on from.Compare(to)"))
+					}
+					return true
+				})
+			}
+			if k == 0 {
+				c.Unresolved(r3, "utils/merkletrie.diffNodesSameName:callers", same.Decl.Pos(), "no call from a switch clause found")
+			}
+		}
+	}
+	c.Floor(r3, 3)
+
 	const r2 = "result-is-union"
 	if det := c.MustFunc(r2, objShort+".(*renameDetector).detect"); det != nil {
 		c.Analysed(det)
